@@ -52,6 +52,7 @@ class SympySimulator(Backend):
         """
 
         from sympy import simplify
+        from sympy.matrices import MatrixBase
         from sympy.physics.quantum import qapply
         from sympy.physics.quantum.qubit import Qubit, matrix_to_qubit, \
             qubit_to_matrix, measure_all
@@ -74,6 +75,9 @@ class SympySimulator(Backend):
             # A flat array of amplitudes (as returned by Backend.simulate for an empty circuit) is a ket: column vector
             if initial_statevector.ndim == 1:
                 initial_statevector = initial_statevector.reshape(-1, 1)
+            python_statevector = matrix_to_qubit(initial_statevector)
+        elif isinstance(initial_statevector, MatrixBase):
+            # The symbolic statevector returned by this backend (return_statevector=True) is a valid initial state
             python_statevector = matrix_to_qubit(initial_statevector)
         else:
             raise ValueError(f"The {type(initial_statevector)} type for initial_statevector is not supported.")
@@ -122,6 +126,21 @@ class SympySimulator(Backend):
         eigenvalue = simplify(eigenvalue).evalf()
 
         return eigenvalue
+
+    def _statevector_to_frequencies(self, statevector):
+        """Exact frequencies of a (possibly symbolic) statevector, in the lsq-first bitstring convention.
+        Symbolic amplitudes cannot be compared with the numerical threshold used by the generic implementation."""
+
+        from sympy import Matrix, simplify, Abs
+
+        amplitudes = list(Matrix(statevector))
+        n_qubits = (len(amplitudes) - 1).bit_length()
+        frequencies = dict()
+        for i, amplitude in enumerate(amplitudes):
+            prob = simplify(Abs(amplitude)**2, tolerance=1e-4).evalf()
+            if not prob.is_zero:
+                frequencies[self._int_to_binstr(i, n_qubits)] = prob
+        return frequencies
 
     @staticmethod
     def backend_info():
